@@ -6,6 +6,7 @@ import (
 	"crypto/sha256"
 	"crypto/sha512"
 	"fmt"
+	"math/big"
 	"math/rand/v2"
 	"testing"
 	"testing/synctest"
@@ -227,11 +228,18 @@ func runSignWith[G algebra.PrimeGroupElement[G, S], S algebra.PrimeFieldElement[
 		}
 	}
 	comp := niCompilers[w.IntN(len(niCompilers))]
-	sessions := []signSession{{name: "S1", quorum: quorum, msg: drawMessage(w)}}
+	drawMsg := func() []byte {
+		m := drawMessage(w)
+		for fl.nonEmptyMsg && len(m) == 0 {
+			m = drawMessage(w)
+		}
+		return m
+	}
+	sessions := []signSession{{name: "S1", quorum: quorum, msg: drawMsg()}}
 	if !heavy && w.IntN(3) == 0 {
 		q2 := drawQuorum(w, spec, fl.twoPartyOnly, probes)
 		if q2 != nil {
-			sessions = append(sessions, signSession{name: "S2", quorum: q2, msg: drawMessage(w)})
+			sessions = append(sessions, signSession{name: "S2", quorum: q2, msg: drawMsg()})
 			probes["concurrent_signing_sessions"]++
 		}
 	}
@@ -373,12 +381,34 @@ func runSignWith[G algebra.PrimeGroupElement[G, S], S algebra.PrimeFieldElement[
 				o, _ := pr.tasks[fmt.Sprintf("%s@%d", ss.name, id)].Result()
 				partials[id] = o
 			}
-			wire, _, v := judgeSignature(fl, ss, shards, partials, rc.Seed.Sub(ss.name), probes)
+			wire, sigObj, v := judgeSignature(fl, ss, shards, partials, rc.Seed.Sub(ss.name), probes)
 			if v != nil {
 				viol = v
 				break
 			}
 			wires = append(wires, wire)
+			if fl.omni != nil {
+				// reconstruct the secret from the quorum's shares with the reference solver
+				md, err := extractMSP(shards[ss.quorum[0]].MSP())
+				if err != nil {
+					viol = &harness.Violation{Class: "msp-extract", Site: fl.name, Detail: err.Error()}
+					break
+				}
+				comps := map[sim.ID][]*big.Int{}
+				for _, id := range ss.quorum {
+					comps[id] = shareComponents(shards[id].Share())
+				}
+				x, ok, err := md.reconstruct(ss.quorum, comps)
+				if err != nil || !ok {
+					viol = &harness.Violation{Class: "reference-reconstruction-failed", Site: fl.name, Detail: fmt.Sprintf("quorum %v: %v", ss.quorum, err)}
+					break
+				}
+				if err := fl.omni(x, shards[ss.quorum[0]].PublicKeyValue(), ss.msg, sigObj); err != nil {
+					viol = &harness.Violation{Class: "omniscient-check-failed", Site: fl.name, Detail: err.Error()}
+					break
+				}
+				probes["omniscient_checks"]++
+			}
 		}
 	}
 	if spec.nonIdeal {
@@ -443,5 +473,9 @@ func C01Workloads() []harness.Workload {
 		signWorkload("dkls23-bbot-p256", 3, 200),
 		signWorkload("dkls23-softspoken-k256", 6, 400),
 		signWorkload("dkls23-softspoken-p256", 3, 200),
+		signWorkload("boldyreva-short", 12, 400),
+		signWorkload("boldyreva-long", 12, 400),
+		signWorkload("lindell17", 4, 120),
+		signWorkload("lindell17-dkg", 1, 24),
 	}
 }
